@@ -1,7 +1,8 @@
 use crate::core::Property;
 
+pub mod c06;
 pub mod c07;
 
 pub fn registry() -> Vec<Box<dyn Property>> {
-    vec![Box::new(c07::C07)]
+    vec![Box::new(c06::C06), Box::new(c07::C07)]
 }
